@@ -80,6 +80,7 @@ def oWga (b : Nat) : Obj := enc 10 b
 def oWgp (e : Nat) : Obj := enc 11 e
 def oRund : Obj := enc 12 0
 def oAbort : Obj := enc 13 0
+def oRunDone : Obj := enc 14 0
 
 /-- per-channel event lists -/
 def perChan (s : Sched) (f : Nat → List Ev) : List Ev := (rng s.n).flatMap f
@@ -96,7 +97,7 @@ def progR (s : Sched) : List Ev :=
         [.send (oQreq 1), .recv oQres]
         ++ (rng (s.k - s.k0)).flatMap (fun d => [.lock oWsm, .rd vWsa, .unlock oWsm, .send (oQreq (d + 2)), .recv oQres])
       else [])
-  ++ [.close oAbort, .wgWait oRund, .rd vWsa]
+  ++ [.close oAbort, .recvC oRunDone, .rd vWsa]
 
 /-- the status thread: saves the configuration store (from its private table of last messages), consumes the
     trigger-rate messages (and remembers them in that table) -/
@@ -167,7 +168,7 @@ def progL (s : Sched) : List Ev :=
   [.start] ++ (if s.merged then [.spawn (s.tA 0)] else [])
   ++ (rng (min s.k0 s.k)).flatMap s.blockL
   ++ (if s.k0 ≤ s.k then s.firstReq ++ ((rng (s.k - s.k0)).flatMap (fun d => s.blockL (s.k0 + d))) else [])
-  ++ [.recvC oNbClose, .lock oWsm, .rd vWsa, .unlock oWsm, .wgDone oRund]
+  ++ [.recvC oNbClose, .lock oWsm, .rd vWsa, .unlock oWsm, .close oRunDone, .wgDone oRund]
 
 /-- program of a thread id -/
 def prog (s : Sched) (t : Tid) : List Ev :=
@@ -220,6 +221,7 @@ def system (s : Sched) : System where
   allToks := s.allToks
   kids := s.kids
   adder := s.adder
+  waiter := fun _ => tR
 
 /-- the threads that have a program -/
 def threads (s : Sched) : List Tid :=
